@@ -95,3 +95,15 @@ Example ex_store_no_leak :
   List.length (hget (fst r) (snd r)) = 5 /\
   fresh_domain_types InitCopy (fst r) = [("object", "")].
 Proof. vm_compute. repeat split. Qed.
+
+(* the form the property is usually quoted in: when DEFAULT_TYPES holds `object` only, a Domain() created
+   after any combination has `object` only, and every earlier dictionary is what it was *)
+Lemma C17_fresh_only_object_lemma : forall files h,
+  hget h 0 = [("object", "")] -> 0 < List.length h ->
+  keys (fresh_domain_types InitCopy (fst (locate_types_store InitCopy files h))) = ["object"] /\
+  forall l, l < List.length h -> hget (fst (locate_types_store InitCopy files h)) l = hget h l.
+Proof.
+  intros files h H0 Hl. split.
+  - rewrite C17_fresh_after_lemma by assumption. now rewrite H0.
+  - intros l Hlt. now apply C17_no_leak_lemma.
+Qed.
